@@ -4,6 +4,7 @@ SYMCLASS, SET-NOT-ADD, MULTISET (C02, C06, C08-C12, C14, C15, and several others
 from __future__ import annotations
 
 import ast
+import re
 
 from ..model import AnalysisError, norm, walk_live, parent, ancestors, first_line
 from ..report import RuleResult, ModSite
@@ -564,6 +565,29 @@ def rule_multiset(P, scope=("cfg.py", "cfglm.py")):
                     r.looked_at(f)
                     r.add(f, nd, False, f"`{norm(nd)}` selects rules by equality: every rule equal to the chosen one is affected, "
                           f"not only the one at the chosen position", slots=dict(compare=norm(nd)))
+            # list.remove / list.index / `in` on a rule list select by equality too (the first equal rule, not the chosen one)
+            if isinstance(nd, ast.Call) and isinstance(nd.func, ast.Attribute) and nd.func.attr in ("remove", "index", "count") and len(nd.args) == 1:
+                recv = nd.func.value
+                rv = recv
+                if isinstance(recv, ast.Name):
+                    d = W_.single_def(f.node, recv.id)
+                    rv = d if d is not None else recv
+                if isinstance(rv, ast.Call) and W_.call_name(rv) in ("list", "tuple", "sorted") and rv.args:
+                    rv = rv.args[0]
+                if _iterates_rules(f, rv, K) or norm(rv).endswith(".rules"):
+                    r.looked_at(f)
+                    r.add(f, nd, False, f"`{norm(nd)}` picks a rule out of the rule list by equality: with parallel rules (same head and body) the first "
+                          f"equal one is taken, not the one at the chosen position", slots=dict(call=norm(nd)))
+    # Rule equality itself distinguishes parallel rules with different weights
+    rc = P.classes.get(("cfg.py", "Rule"))
+    if rc is not None and "__eq__" in rc.methods:
+        eq = rc.methods["__eq__"]
+        r.looked_at(eq)
+        txt = norm(eq.node)
+        compared = {a for a in ("w", "head", "body") if re.search(rf"\bself\.{a} == other\.{a}\b|\bother\.{a} == self\.{a}\b", txt)}
+        ok = compared == {"w", "head", "body"}
+        r.add(eq, eq.node, ok, "" if ok else f"Rule.__eq__ compares {sorted(compared)} only: rules that differ in {sorted({'w', 'head', 'body'} - compared)} are equal, so "
+              f"`rules.remove(r)`, `r in rules`, set()/dict keys confuse parallel rules of different weight", construct="Rule.__eq__ compares w, head, body")
     r.min_instances = 20
     return r
 
@@ -763,4 +787,398 @@ def rule_oneshot(P, scope=None):
                   f"but is exhausted after the first pass: only the first outer element is combined with its items",
                   slots=dict(kind=kind, name=name))
     r.note(f"{n_sites} one-shot iterators bound to names")
+    return r
+
+
+# ---------------------------------------------------------------- WORKLIST-MARK
+
+
+def rule_worklist_mark(P, scope=None):
+    r = RuleResult("WORKLIST-MARK", "a worklist search (`while stack: x = stack.pop()` whose pushes are guarded by `y not in visited`) marks "
+                   "every element visited when it is put on the worklist - seeds included (`visited.add(x)` next to `stack.append(x)`, or "
+                   "`visited = set(stack)` after the seeds): an unmarked seed is expanded again when the search returns to it (its "
+                   "accumulated `+=` arcs double) and is missing from a result that is the visited set", "each state is expanded once")
+    n = 0
+    for q in sorted(P.funcs):
+        f = P.funcs[q]
+        if scope is not None and not any(q.startswith(s) for s in scope):
+            continue
+        for wl in [x for x in walk_live(f.node) if isinstance(x, ast.While) and isinstance(x.test, ast.Name)]:
+            stack = wl.test.id
+            if not any(isinstance(c, ast.Call) and isinstance(c.func, ast.Attribute) and c.func.attr == "pop" and W_.is_name(c.func.value, stack)
+                       for c in walk_live(wl)):
+                continue
+            # the visited set: tested by `not in` on a guarded push inside the loop
+            vis = None
+            for c in walk_live(wl):
+                if isinstance(c, ast.Call) and isinstance(c.func, ast.Attribute) and c.func.attr in ("append", "add") and W_.is_name(c.func.value, stack):
+                    for ft in W_.guard_facts(c):
+                        t = ft.test
+                        if isinstance(t, ast.Compare) and len(t.ops) == 1 and isinstance(t.comparators[0], ast.Name) and W_._within(ft.origin, wl) and \
+                                ((ft.pol and isinstance(t.ops[0], ast.NotIn)) or (not ft.pol and isinstance(t.ops[0], ast.In))):
+                            vis = t.comparators[0].id
+            if vis is None or vis == stack:
+                continue
+            r.looked_at(f)
+            n += 1
+            bulk = any(isinstance(s, ast.Assign) and W_.is_name(s.targets[0], vis) and isinstance(s.value, ast.Call) and W_.call_name(s.value) in ("set", "frozenset")
+                       and s.value.args and W_.is_name(s.value.args[0], stack) and W_.pos(s) < W_.pos(wl) for s in walk_live(f.node))
+            # this search's pushes: inside the loop, or before it and after the previous search that used the same worklist name
+            prev_end = max([W_.end_pos(o) for o in walk_live(f.node) if isinstance(o, ast.While) and o is not wl and isinstance(o.test, ast.Name)
+                            and o.test.id == stack and W_.end_pos(o) < W_.pos(wl)], default=(0, 0))
+            pushes = []
+            for c in walk_live(f.node):
+                if not isinstance(c, (ast.Call, ast.Assign)) or not (prev_end < W_.pos(c) < W_.end_pos(wl)):
+                    continue
+                if isinstance(c, ast.Call) and isinstance(c.func, ast.Attribute) and c.func.attr in ("append", "add", "extend", "update") and W_.is_name(c.func.value, stack) and c.args:
+                    pushes.append((c, c.args[0], W_.stmt_of(c)))
+                if isinstance(c, ast.Assign) and any(W_.is_name(t, stack) for t in c.targets):
+                    if isinstance(c.value, (ast.List, ast.Set, ast.Tuple)):
+                        for e in c.value.elts:
+                            pushes.append((c, e, c))
+                    elif not (isinstance(c.value, ast.Call) and not c.value.args and not c.value.keywords):
+                        pushes.append((c, c.value, c))  # seeded from an expression (comprehension, list(..), set(..))
+            for c, x, st in pushes:
+                if bulk and W_.pos(st) < W_.pos(wl) and not W_._within(st, wl):
+                    r.add(f, st, True, slots=dict(worklist=stack, visited=vis, marked=f"{vis} = set({stack})"))
+                    continue
+                xs = x.args[0] if isinstance(x, ast.Call) and W_.call_name(x) in ("set", "list", "tuple", "sorted", "frozenset") and len(x.args) == 1 else x
+                if W_.is_name(xs, vis) and not W_._within(st, wl):
+                    r.add(f, st, True, slots=dict(worklist=stack, visited=vis, marked=f"seeded from {vis} itself"))
+                    continue
+                same_src = [a for a in walk_live(f.node) if isinstance(a, ast.Assign) and W_.is_name(a.targets[0], vis) and isinstance(a.value, ast.Call)
+                            and W_.call_name(a.value) in ("set", "frozenset") and len(a.value.args) == 1 and norm(a.value.args[0]) == norm(xs)
+                            and prev_end < W_.pos(a) < W_.pos(wl)]
+                if same_src and not W_._within(st, wl) and isinstance(xs, ast.Name) and len(W_.assignments_to(f.node, xs.id)) >= 1 \
+                        and not any(W_.pos(same_src[0]) < W_.pos(d) < W_.pos(st) or W_.pos(st) < W_.pos(d) < W_.pos(same_src[0]) for d, _ in W_.assignments_to(f.node, xs.id)):
+                    r.add(f, st, True, slots=dict(worklist=stack, visited=vis, marked=f"{vis} = set({norm(xs)}), the same seeds"))
+                    continue
+                blk = _block_of(st)
+                xt = norm(x)
+                marked = any(isinstance(s, ast.Expr) and isinstance(s.value, ast.Call) and isinstance(s.value.func, ast.Attribute) and s.value.func.attr in ("add", "update")
+                             and W_.is_name(s.value.func.value, vis) and s.value.args and norm(s.value.args[0]) == xt for s in blk)
+                lit = any(isinstance(s, ast.Assign) and W_.is_name(s.targets[0], vis) and isinstance(s.value, ast.Set) and any(norm(e) == xt for e in s.value.elts)
+                          for s in blk)
+                ok = marked or lit
+                r.add(f, st, ok, "" if ok else f"`{first_line(st)}` puts `{xt}` on the worklist `{stack}` without marking it in `{vis}`: when the search "
+                      f"comes back to it, it is expanded a second time (accumulated arcs double; a result built from `{vis}` misses it)",
+                      slots=dict(worklist=stack, visited=vis, element=xt))
+    if n < 3:
+        raise AnalysisError(f"WORKLIST-MARK: {n} worklist searches found, 3 confirmed by hand (WFSA.accessible, WFSA.determinize, FST._pruned_compose)")
+    r.min_instances = 5
+    return r
+
+
+def _block_of(st):
+    p = parent(st)
+    for fld in ("body", "orelse", "finalbody"):
+        b = getattr(p, fld, None)
+        if isinstance(b, list) and st in b:
+            return b
+    return [st]
+
+
+# ---------------------------------------------------------------- PARAM-USED
+
+# parameters that are accepted and deliberately not read (one line of reason each)
+PARAM_UNUSED_OK = {
+    ("parse/cky.py::IncrementalCKY.next_token_weights", "prefix"): "kept for callers of the old two-argument form; the length is read off the chart (D1)",
+}
+
+
+def _is_abstract(fnode):
+    body = [s for s in fnode.body if not (isinstance(s, ast.Expr) and isinstance(s.value, ast.Constant))]
+    if not body:
+        return True
+    if len(body) == 1 and isinstance(body[0], ast.Pass):
+        return True
+    if len(body) == 1 and isinstance(body[0], ast.Raise):
+        return True
+    return False
+
+
+def rule_param_used(P, scope=None):
+    r = RuleResult("PARAM-USED", "every parameter a function accepts is read by it (abstract stubs and the two tabled protocol/compatibility "
+                   "parameters excepted): an option that a wrapper takes and does not hand on (`byte_cfg(charset=..)` building the grammar "
+                   "for the default character set), or a default that shadows the caller's value, silently answers for a different "
+                   "configuration than the one asked for", "options reach the code that implements them")
+    n = 0
+    for q in sorted(P.funcs):
+        f = P.funcs[q]
+        if scope is not None and not any(q.startswith(s) for s in scope):
+            continue
+        fn = f.node
+        if not isinstance(fn, (ast.FunctionDef, ast.AsyncFunctionDef)) or _is_abstract(fn):
+            continue
+        if fn.name.startswith("__") and fn.name.endswith("__") and fn.name not in ("__init__", "__call__", "__new__"):
+            continue  # the parameter list of a protocol method is dictated by the protocol
+        params = [a.arg for a in fn.args.posonlyargs + fn.args.args + fn.args.kwonlyargs]
+        if f.cls is not None and params and "staticmethod" not in f.decorators:
+            params = params[1:]
+        for a in (fn.args.vararg, fn.args.kwarg):
+            if a is not None:
+                params.append(a.arg)
+        if not params:
+            continue
+        used = {x.id for x in ast.walk(fn) if isinstance(x, ast.Name) and isinstance(x.ctx, (ast.Load, ast.Del))}
+        # a parameter that is re-bound before any read is not read either
+        for p in params:
+            n += 1
+            if p.startswith("_"):
+                continue
+            ok = p in used
+            why = ""
+            if ok:
+                first_load = min((W_.pos(x) for x in ast.walk(fn) if isinstance(x, ast.Name) and x.id == p and isinstance(x.ctx, ast.Load)), default=None)
+                rebinds = [st for st, v in W_.assignments_to(fn, p) if isinstance(st, ast.Assign) and st in fn.body and first_load is not None
+                           and W_.end_pos(st) < first_load and not any(isinstance(x, ast.Name) and x.id == p for x in ast.walk(st.value))]
+                if rebinds:
+                    # harmless only while every caller passes exactly the value it is overwritten with
+                    idx = [a.arg for a in fn.args.posonlyargs + fn.args.args].index(p) - (1 if f.cls is not None and "staticmethod" not in f.decorators else 0) \
+                        if p in [a.arg for a in fn.args.posonlyargs + fn.args.args] else None
+                    sites = [c for g in P.funcs.values() for c in walk_live(g.node) if isinstance(c, ast.Call) and W_.call_name(c) == f.name
+                             and isinstance(c.func, ast.Attribute)]
+                    same = idx is not None and sites and all(len(c.args) > idx and norm(c.args[idx]) == norm(rebinds[0].value) for c in sites)
+                    if same:
+                        r.add(f, fn, True, slots=dict(parameter=p, note=f"re-bound to `{norm(rebinds[0].value)}`, which is what all {len(sites)} call sites pass"),
+                              construct=f"{f.name}({p})", nontrivial=False)
+                        continue
+                if rebinds:
+                    ok = False
+                    why = f"parameter `{p}` of {f.name} is overwritten by `{first_line(rebinds[0])}` before it is ever read: the caller's value is discarded"
+            elif (q, p) in PARAM_UNUSED_OK:
+                r.add(f, fn, True, slots=dict(parameter=p, exempt=PARAM_UNUSED_OK[(q, p)]), construct=f"{f.name}({p})", nontrivial=False)
+                continue
+            else:
+                why = f"parameter `{p}` of {f.name} is accepted and never read: the caller's value is silently ignored"
+            r.add(f, fn, ok, why, slots=dict(parameter=p), construct=f"{f.name}({p})", nontrivial=not ok)
+    if n < 100 and scope is None:
+        raise AnalysisError(f"PARAM-USED: only {n} parameters found")
+    r.min_instances = 10 if scope is None else 1
+    return r
+
+
+# ---------------------------------------------------------------- LOOP-CARRY
+
+_LOOP_CARRY_POSITIVE = '''
+def f(alphabet, arcs, V):
+    u = 0 * V
+    out = []
+    for a in alphabet:
+        if a in arcs:
+            u = arcs[a] @ V
+        out.append((a, u))
+    return out
+'''
+
+
+def _loop_carry_sites(fnode):
+    """(loop, if-statement, name, later use) for: default before the loop, re-assigned in the loop only under an `if` without `else`
+    (new value not computed from the old one), read later in the same iteration"""
+    def names_in(e):
+        return {x.id for x in ast.walk(e) if isinstance(x, ast.Name)}
+
+    out = []
+    for lp in [n for n in walk_live(fnode) if isinstance(n, ast.For)]:
+        for i, st in enumerate(lp.body):
+            if not (isinstance(st, ast.If) and not st.orelse):
+                continue
+            if any(isinstance(x, (ast.Continue, ast.Break, ast.Return, ast.Raise)) for s in st.body for x in ast.walk(s)):
+                continue
+            assigned = {}
+            for s in st.body:
+                if isinstance(s, ast.Assign):
+                    for t in s.targets:
+                        for x in ([t] if isinstance(t, ast.Name) else (t.elts if isinstance(t, (ast.Tuple, ast.List)) else [])):
+                            if isinstance(x, ast.Name) and x.id not in names_in(s.value):
+                                assigned[x.id] = s
+            for v, s in assigned.items():
+                if not (names_in(st.test) & names_in(lp.target)):
+                    continue  # the condition does not change from one iteration to the next through the loop variable
+                uncond = any(isinstance(b, (ast.Assign, ast.AugAssign, ast.For, ast.With)) and v in
+                             {x.id for x in ast.walk(b) if isinstance(x, ast.Name) and isinstance(x.ctx, ast.Store)} for b in lp.body[:i])
+                later = [x for b in lp.body[i + 1:] for x in ast.walk(b) if isinstance(x, ast.Name) and x.id == v and isinstance(x.ctx, ast.Load)]
+                pre = [d for d, _ in W_.assignments_to(fnode, v) if W_.pos(d) < W_.pos(lp) and not W_._within(d, lp)]
+                redefined_after = any(isinstance(b, ast.Assign) and v in {x.id for x in ast.walk(b) if isinstance(x, ast.Name) and isinstance(x.ctx, ast.Store)}
+                                      for b in lp.body[i + 1:])
+                if not uncond and later and pre and not redefined_after:
+                    out.append((lp, st, v, later[0]))
+    return out
+
+
+def rule_loop_carry(P, scope=None):
+    r = RuleResult("LOOP-CARRY", "a value that is a function of the loop variable is computed afresh in every iteration: a name given a "
+                   "default *before* a loop, re-assigned inside it only under an `if` on the loop variable (no `else`), and read later in "
+                   "the same iteration silently keeps the previous iteration's value whenever the condition fails (the vector of symbol "
+                   "a-1 reused for a symbol the automaton does not have)", "per-iteration values do not leak between iterations")
+    from ..model import set_parents
+    _pos = ast.parse(_LOOP_CARRY_POSITIVE)
+    set_parents(_pos)
+    pos = _loop_carry_sites(_pos.body[0])
+    if len(pos) != 1:
+        raise AnalysisError("LOOP-CARRY: the positive example is not recognised")
+    n = 0
+    for q in sorted(P.funcs):
+        f = P.funcs[q]
+        if scope is not None and not any(q.startswith(s) for s in scope):
+            continue
+        loops = [x for x in walk_live(f.node) if isinstance(x, ast.For) and W_.enclosing_function(x) is f.node]
+        if not loops:
+            continue
+        n += len(loops)
+        r.looked_at(f)
+        for lp, st, v, use in _loop_carry_sites(f.node):
+            if W_.enclosing_function(lp) is not f.node:
+                continue
+            r.add(f, st, False, f"`{v}` gets its default before the loop at line {lp.lineno} and is re-assigned only when `{norm(st.test)}`; the read at line "
+                  f"{use.lineno} sees the value left by an earlier iteration when the test fails", slots=dict(name=v, loop=first_line(lp)))
+    r.add(ModSite(next(iter(P.modules.values()))), None, True, slots=dict(loops_examined=n, positive_example="recognised"),
+          construct="LOOP-CARRY: loops examined", nontrivial=False)
+    if n < 50 and scope is None:
+        raise AnalysisError(f"LOOP-CARRY: only {n} loops found")
+    return r
+
+
+# ---------------------------------------------------------------- BUILDER-BREAK
+
+_BREAK_POSITIVE = '''
+def f(cfg, Z, new):
+    for r in cfg:
+        if Z[r.head] == 0:
+            break
+        new.add(r.w, r.head, *r.body)
+    return new
+'''
+
+# a `break` inside an accumulating `for` loop that is nevertheless exhaustive in effect (one line of reason each)
+BREAK_OK = {
+    "lm.py::LM.__call__": "the running product is zero and zero is absorbing: the remaining factors cannot change it",
+}
+
+_EMITTERS = {"add", "add_arc", "add_I", "add_F", "set_arc", "set_I", "set_F", "append", "extend", "update", "add_rule", "push", "setdefault"}
+
+
+def _builder_breaks(fnode):
+    """`break` statements whose nearest loop is a `for` that emits into a result (calls of add*/append/..., subscript or augmented stores)"""
+    out = []
+    for b in [n for n in walk_live(fnode) if isinstance(n, ast.Break)]:
+        lp = next((a for a in ancestors(b) if isinstance(a, (ast.For, ast.While))), None)
+        if not isinstance(lp, ast.For):
+            continue
+        emits = False
+        for n in walk_live(lp):
+            if isinstance(n, ast.Call) and isinstance(n.func, ast.Attribute) and n.func.attr in _EMITTERS:
+                emits = True
+            if isinstance(n, ast.AugAssign):
+                emits = True
+            if isinstance(n, ast.Assign) and any(isinstance(t, ast.Subscript) for t in n.targets):
+                emits = True
+            if isinstance(n, (ast.Yield, ast.YieldFrom)):
+                emits = True
+        if emits:
+            out.append((b, lp))
+    return out
+
+
+def rule_builder_break(P, scope=None):
+    r = RuleResult("BUILDER-BREAK", "a `for` loop that builds a result from every element of a collection (it emits with add*/append/+=/"
+                   "subscript stores/yield) is not left with `break`: the guard that skips one unusable element (`continue`) must not "
+                   "abandon the elements after it (every live rule listed after the first useless one; every state numbered after the "
+                   "first dead end).  The one accumulating loop that may stop early is tabled with its reason",
+                   "every element of the input is processed")
+    from ..model import set_parents
+    _pos = ast.parse(_BREAK_POSITIVE)
+    set_parents(_pos)
+    if len(_builder_breaks(_pos.body[0])) != 1:
+        raise AnalysisError("BUILDER-BREAK: the positive example is not recognised")
+    n = 0
+    for q in sorted(P.funcs):
+        f = P.funcs[q]
+        if scope is not None and not any(q.startswith(s) for s in scope):
+            continue
+        loops = [x for x in walk_live(f.node) if isinstance(x, ast.For) and W_.enclosing_function(x) is f.node]
+        if not loops:
+            continue
+        n += len(loops)
+        r.looked_at(f)
+        for b, lp in _builder_breaks(f.node):
+            if W_.enclosing_function(b) is not f.node:
+                continue
+            if q in BREAK_OK:
+                r.add(f, b, True, slots=dict(loop=first_line(lp), exempt=BREAK_OK[q]), nontrivial=False)
+                continue
+            facts = [W_.cfact_text(ft) if hasattr(W_, "cfact_text") else norm(ft.test) for ft in W_.guard_facts(b) if W_._within(ft.origin, lp)]
+            r.add(f, b, False, f"`break` (under {facts or 'no condition'}) leaves the loop `{first_line(lp)}`, which builds its result from every element: "
+                  f"the elements after this one are never processed", slots=dict(loop=first_line(lp)))
+    r.add(ModSite(next(iter(P.modules.values()))), None, True, slots=dict(loops_examined=n, positive_example="recognised"),
+          construct="BUILDER-BREAK: loops examined", nontrivial=False)
+    if n < 50 and scope is None:
+        raise AnalysisError(f"BUILDER-BREAK: only {n} loops found")
+    return r
+
+
+# ---------------------------------------------------------------- GEN-IDENTITY
+
+_IDENTITY_POSITIVE = '''
+def f(self, x, null_weight):
+    if null_weight[x] == self.R.zero or x is self.S:
+        return x
+    return (x, 1)
+'''
+_SENTINELS = {"NotImplemented", "anything_else", "Ellipsis", "_MISSING", "MISSING", "_SENTINEL", "SENTINEL"}
+
+
+def _identity_sites(fnode):
+    out = []
+    for n in walk_live(fnode):
+        if isinstance(n, ast.Compare) and any(isinstance(o, (ast.Is, ast.IsNot)) for o in n.ops):
+            sides = [n.left] + list(n.comparators)
+            for (a, op, b) in zip(sides, n.ops, sides[1:]):
+                if not isinstance(op, (ast.Is, ast.IsNot)):
+                    continue
+                def harmless(e):
+                    if isinstance(e, ast.Constant) and (e.value is None or e.value is True or e.value is False or e.value is Ellipsis):
+                        return True
+                    if isinstance(e, ast.Name) and e.id in _SENTINELS:
+                        return True
+                    return False
+                if harmless(a) or harmless(b):
+                    continue
+                # type(x) is T / cls is T compare classes, which are singletons
+                if any(isinstance(e, ast.Call) and isinstance(e.func, ast.Name) and e.func.id == "type" for e in (a, b)):
+                    continue
+                out.append((n, a, b))
+    return out
+
+
+def rule_identity(P, scope=None):
+    r = RuleResult("GEN-IDENTITY", "symbols, states and weights are compared with == / !=, never with `is` / `is not` (identity is used only "
+                   "against None, True/False, sentinels and types; the identity short-cuts of the semiring classes are decided by SR-TABLE): "
+                   "`x is self.S` is true for the interned one-letter name 'S' and false for an equal name built at run time "
+                   "('Start', a tuple, an int above 256)", "equal values are treated alike however they were constructed")
+    from ..model import set_parents
+    _pos = ast.parse(_IDENTITY_POSITIVE)
+    set_parents(_pos)
+    if len(_identity_sites(_pos.body[0])) != 1:
+        raise AnalysisError("GEN-IDENTITY: the positive example is not recognised")
+    n = 0
+    for q in sorted(P.funcs):
+        f = P.funcs[q]
+        if q.startswith("semiring.py::"):
+            continue
+        if scope is not None and not any(q.startswith(s) for s in scope):
+            continue
+        cmps = [x for x in walk_live(f.node) if isinstance(x, ast.Compare) and W_.enclosing_function(x) is f.node]
+        n += len(cmps)
+        if cmps:
+            r.looked_at(f)
+        for c, a, b in _identity_sites(f.node):
+            if W_.enclosing_function(c) is not f.node:
+                continue
+            r.add(f, c, False, f"`{norm(c)}` compares `{norm(a)}` and `{norm(b)}` by identity: equal values that are distinct objects (a name longer than one "
+                  f"character, a tuple, a large int, a freshly computed weight) take the other branch")
+    r.add(ModSite(next(iter(P.modules.values()))), None, True, slots=dict(comparisons_examined=n, positive_example="recognised"),
+          construct="GEN-IDENTITY: comparisons examined", nontrivial=False)
+    if n < 100 and scope is None:
+        raise AnalysisError(f"GEN-IDENTITY: only {n} comparisons found")
     return r
